@@ -195,7 +195,7 @@ theorem presealMelmint_same (env : Env) (s s' : State) (h : presealMelmint env s
     obtain ⟨s3, h3, h⟩ := Outcome.bind_eq_ok h
     exact ((((createBuiltins_same s).trans (processSwaps_same _ _ h1)).trans
       (processDeposits_same _ _ _ h2)).trans (processWithdrawals_same _ _ _ h3)).trans
-      (processPegging_same _ _ h)
+      ((createBuiltins_same s3).trans (processPegging_same _ _ h))
 
 theorem applyTip909_same (s s' : State) (h : applyTip909 s = .ok s') : SameFM s s' := by
   unfold applyTip909 at h
